@@ -404,3 +404,46 @@ def build_verilated(name, vsources, top, harness, prefix="Vdut", vflags=None, cf
     except OSError:
         shutil.rmtree(tmp, ignore_errors=True)      # someone else finished first
     return exe
+
+
+# ----------------------------------------------------------------------------
+# replay of a saved violation
+# ----------------------------------------------------------------------------
+REPLAY = {   # file in the replay directory -> (validation module, cfg, how to read the verdict)
+    "record.ndjson": {"C02": ("IsaStepV", "IsaStepV.cfg"), "C03": ("RtlV", "RtlV.cfg")},
+    "run.ndjson": {"C02": ("IsaRunV", "IsaRunV.cfg"), "C03": ("RtlRunV", "RtlRunV.cfg")},
+    "case.json": {"C01": ("XRunV", "XRunV.cfg"), "C07": ("XRunV", "XRunV.cfg")},
+    "record.json": {"C08": ("IsaRegionV", "IsaRegionV.cfg"), "C12": ("SimV", "SimV.cfg"), "C06": ("SimV", "SimV.cfg"), "C13": ("TbV", "TbV.cfg"),
+                    "C17": ("AsmV", "AsmV.cfg"), "C14": ("ToolRunV", "ToolRunV.cfg")},
+}
+
+
+def replay(pid, path):
+    """re-validate the record saved with a violation; prints what it finds; exit status 1 if TLC still rejects it"""
+    if not os.path.isdir(path):
+        print("no such replay directory: %s" % path); return 2
+    print("replay of %s: files %s" % (path, sorted(os.listdir(path))))
+    for fn in sorted(os.listdir(path)):
+        if fn.endswith((".txt", ".x", ".S")):
+            print("---- %s\n%s" % (fn, open(os.path.join(path, fn), errors="replace").read()[:3000]))
+    for fn, table in REPLAY.items():
+        fp = os.path.join(path, fn)
+        if os.path.exists(fp) and pid in table:
+            module, cfg = table[pid]
+            d = rundir("replay")
+            try:
+                rf = os.path.join(d, "r.ndjson")
+                txt = open(fp).read().strip()
+                open(rf, "w").write(" ".join(txt.split("\n")) + "\n" if fn.endswith(".json") else txt + "\n")
+                out = tlc_fold(module, cfg, [rf])[0][0]
+                print("---- %s verdict on %s:\n%s" % (module, fn, json.dumps(out, indent=1)[:3000]))
+                s = json.dumps(out)
+                bad = '"bad"' in s and ('"v": "bad"' in s or '"nbad": 1' in s or '"ok": false' in s) or '"v": "bad"' in s
+                if not bad:
+                    bad = any(isinstance(o, dict) and (o.get("layout") or o.get("listing") or o.get("decode")) for o in out)
+                print("VIOLATION property=%s replay=%s" % (pid, path) if bad else "the saved record is accepted by the current specification and tree")
+                return 1 if bad else 0
+            finally:
+                shutil.rmtree(d, ignore_errors=True)
+    print("(no machine-checkable record in this directory: the description above is the replay)")
+    return 0
